@@ -137,7 +137,7 @@ def check_c16(prop, tier, seed):
             subsets = [s for s in subsets if len(s) <= 2] + rnd.sample([s for s in subsets if len(s) > 2], 500)
         jobs = []
         for i, P in enumerate(subsets):
-            n_dim, per = ((2, [0]), (3, [0, 2]), (3, [1]))[i % 3]
+            n_dim, per = ((2, [0]), (3, [0, 2]), (3, [1]), (4, [0, 1, 3]), (3, [2, 0]))[i % 5]
             jobs.append((P, N, n_dim, per, seed * 100003 + i))
         chunks = [jobs[i::common.NCPU] for i in range(common.NCPU)]
         grid = [r for out in common.pmap(_grid_job, chunks) for r in out]
@@ -220,7 +220,7 @@ def check_c14(prop, tier, seed):
             for c in cfgs:
                 if c['kind'] == 'funnel':
                     c.update(n_dim=3, n_points_min=5)
-        boosts = [0.3, 1.0, 2.5, 10.0]
+        boosts = [0.3, 1.0, 1.5, 2.5, 10.0]
         n_states = 4 if tier == 'quick' else 25
         outs = common.pmap(ew_ops.records_for_run, [(c, boosts, n_states) for c in cfgs])
         log = [r for o in outs for r in o]
